@@ -143,3 +143,19 @@ PROPS['C12'] = dict(
                 'row, balance consulted in WHERE, and a nested scan evaluated between two references of balance in one row.',
     trusted_base=['Beancount Inventory algebra (add_position / add_inventory / reduce) is assumed, not verified'], assumptions=[],
 )
+
+PROPS['C13'] = dict(
+    level='other', harness='h13', min_t1=0,
+    explanation='Balance preservation is a theorem about beancount.ops.summarize (a dependency): decided only on a bounded scope (T3) over generated ledgers x clause '
+                'subsets x a date grid. beanquery contributes ordering, date validation and non-mutation; their T1 obligations (BeanTable.update / prepare, '
+                '_compile_from) are listed in the evidence as they are built.',
+    trusted_base=['beancount.ops.summarize.open_opt / close_opt / clear_opt'], assumptions=[],
+)
+
+PROPS['C14'] = dict(
+    level='other', harness='h14', min_t1=0,
+    explanation='Bounded (T3): BALANCES / JOURNAL against the per-account sums and the posting register computed from the plain SELECT over the same FROM clause, '
+                'for every summary function, FROM clause, WHERE condition and account pattern of the scope; PRINT output re-loaded with the Beancount loader and '
+                'compared directive by directive. T1 obligations on transform_balances / transform_journal / execute_print are listed as they are built.',
+    trusted_base=['Beancount printer and loader', 'textwrap.shorten'], assumptions=[],
+)
